@@ -18,12 +18,21 @@ Open Scope Z_scope.
 Definition sid_zero : sid := (0, 0).
 Definition sid_max : sid := (u64_max, u64_max).          (* StreamId::max() *)
 
-(** StreamId::parse_u64_fast: digits only, empty string = 0, wrapping arithmetic *)
-Fixpoint parse_u64_fast (l : bytes) (acc : Z) : option Z :=
+(** StreamId::parse_u64_fast (after the repair 3be45c2): an empty slice is not a number,
+    digits only, checked_mul(10)? then checked_add(digit)? - a value that does not fit in
+    64 bits is None *)
+Fixpoint parse_u64_digits (l : bytes) (acc : Z) : option Z :=
   match l with
   | [] => Some acc
-  | c :: r => if is_digit c then parse_u64_fast r ((acc * 10 + (c - 48)) mod two64) else None
+  | c :: r =>
+      if is_digit c then
+        if acc * 10 <=? u64_max then
+          if acc * 10 + (c - 48) <=? u64_max then parse_u64_digits r (acc * 10 + (c - 48)) else None
+        else None
+      else None
   end.
+Definition parse_u64_fast (l : bytes) : option Z :=
+  match l with [] => None | _ => parse_u64_digits l 0 end.
 (** split at the first '-' *)
 Fixpoint split_dash (l : bytes) : option (bytes * bytes) :=
   match l with
@@ -35,7 +44,7 @@ Fixpoint split_dash (l : bytes) : option (bytes * bytes) :=
 Definition sid_of_bytes (l : bytes) : option sid :=
   match split_dash l with
   | Some (a, b) =>
-      match parse_u64_fast a 0, parse_u64_fast b 0 with
+      match parse_u64_fast a, parse_u64_fast b with
       | Some ms, Some sq => Some (ms, sq)
       | _, _ => None
       end
@@ -254,17 +263,52 @@ Definition g_create_consumer (g : group) (c : bytes) : bool * group :=
 Definition upd_count (c : bytes) (f : Z -> Z) (cs : list (bytes * Z)) : list (bytes * Z) :=
   match alookup c cs with Some n => aput c (f n) cs | None => cs end.
 
-(** ConsumerGroup::add_pending (entries non-empty in every call) *)
+(** ConsumerGroup::add_pending (after the repair 92eb72a; entries non-empty in every call).
+    Per entry: an ID that is still pending (XGROUP SETID moved the cursor back) leaves its
+    previous owner first (PendingEntryList::remove_entry also clears that owner's index), then
+    it is added for the reader with delivery count 1.  Afterwards every previous owner's
+    counter is decremented (saturating), the reader's counter grows by the number of entries
+    and the total by the number of really new ones. *)
+Definition add_pending_one (now : Z) (c : bytes) (acc : group * list bytes) (id : sid) : group * list bytes :=
+  match acc with
+  | (g, prev) =>
+      match pel_remove_entry g id with
+      | (old, g') =>
+          (pel_add_entry g' {| p_id := id; p_consumer := c; p_time := now; p_count := 1 |},
+           match old with Some e => prev ++ [p_consumer e] | None => prev end)
+      end
+  end.
+Definition dec_owners (prev : list bytes) (cs : list (bytes * Z)) : list (bytes * Z) :=
+  fold_left (fun cs o => upd_count o (fun n => sat_sub n 1) cs) prev cs.
 Definition g_add_pending (now : Z) (g : group) (c : bytes) (ids : list sid) : group :=
   let g1 := snd (g_create_consumer g c) in
-  let g2 := fold_left (fun g id => pel_add_entry g {| p_id := id; p_consumer := c; p_time := now; p_count := 1 |})
-                      ids g1 in
-  let g3 := set_consumers g2 (upd_count c (fun n => n + len ids) (g_consumers g2)) in
-  let g4 := set_total g3 (g_total g3 + len ids) in
-  match rev ids with
-  | l :: _ => if sid_ltb (g_last g4) l then set_last g4 l else g4
-  | [] => g4
+  match fold_left (add_pending_one now c) ids (g1, []) with
+  | (g2, prev) =>
+      let g3 := set_consumers g2 (upd_count c (fun n => n + len ids) (dec_owners prev (g_consumers g2))) in
+      let g4 := set_total g3 (g_total g3 + (len ids - len prev)) in
+      match rev ids with
+      | l :: _ => if sid_ltb (g_last g4) l then set_last g4 l else g4
+      | [] => g4
+      end
   end.
+
+(** ConsumerGroup::redeliver_pending (da451f0): the IDs pending for [c] that are greater than
+    [after], in ID order, at most COUNT; their delivery count and time are bumped
+    (get_entry_mut); nothing else changes (the consumer is created if it does not exist) *)
+Definition pel_after (after : sid) (l : list pending) : list pending :=
+  filter (fun p => sid_ltb after (p_id p)) l.
+Definition bump (now : Z) (q : pending) : pending :=
+  {| p_id := p_id q; p_consumer := p_consumer q; p_time := now; p_count := p_count q + 1 |}.
+Definition pel_bump (now : Z) (l : list pending) (id : sid) : list pending :=
+  map (fun q => if sid_eqb id (p_id q) then bump now q else q) l.
+Definition set_byid (g : group) (byid : list pending) : group :=
+  {| g_last := g_last g; g_by_id := byid; g_by_consumer := g_by_consumer g; g_consumers := g_consumers g;
+     g_ncons := g_ncons g; g_total := g_total g; g_min := g_min g; g_max := g_max g |}.
+Definition g_redeliver_pending (now : Z) (g : group) (c : bytes) (after : sid) (count : option Z)
+  : list sid * group :=
+  let g1 := snd (g_create_consumer g c) in
+  let ids := map p_id (take_count count (filter (fun p => beq (p_consumer p) c) (pel_after after (g_by_id g1)))) in
+  (ids, set_byid g1 (fold_left (pel_bump now) ids (g_by_id g1))).
 
 (** ConsumerGroup::acknowledge *)
 Definition g_ack_one (acc : Z * group) (id : sid) : Z * group :=
@@ -327,22 +371,38 @@ Definition g_delete_consumer (g : group) (c : bytes) : Z * group :=
     end
   else (0, g).
 
-(** Stream::read_group.  [after = sid_max] is the marker for ">" *)
+(** entries.binary_search_by(|e| e.id.cmp(id)).ok().map(|idx| entries[idx].clone()) *)
+Definition find_entry (id : sid) (es : list sentry) : option sentry :=
+  match bsearch id es with
+  | (true, i) => znth i es
+  | (false, _) => None
+  end.
+Fixpoint filter_map {A B} (f : A -> option B) (l : list A) : list B :=
+  match l with
+  | [] => []
+  | x :: r => match f x with Some y => y :: filter_map f r | None => filter_map f r end
+  end.
+
+(** Stream::read_group.  [after = sid_max] is the marker for ">".  An explicit ID (da451f0)
+    reads the consumer's own history: its pending entries after that ID that are still in
+    the stream; nothing becomes pending, the cursor does not move, NOACK is irrelevant. *)
 Definition st_read_group (now : Z) (s : stream) (g : group) (c : bytes) (after : sid) (count : option Z)
            (noack : bool) : list sentry * group :=
-  let es := if sid_eqb after sid_max then st_range_after (s_entries s) (g_last g) count
-            else st_range_after (s_entries s) after count in
+  if negb (sid_eqb after sid_max) then
+    match g_redeliver_pending now g c after count with
+    | (ids, g') => (filter_map (fun id => find_entry id (s_entries s)) ids, g')
+    end
+  else
+  let es := st_range_after (s_entries s) (g_last g) count in
   match es with
   | [] => ([], g)
   | _ =>
       if noack then
         (* after the repair 18325a2: a ">" read still consumes the entries *)
-        (es, if sid_eqb after sid_max then
-               match rev es with
-               | l :: _ => if sid_ltb (g_last g) (fst l) then set_last g (fst l) else g
-               | [] => g
-               end
-             else g)
+        (es, match rev es with
+             | l :: _ => if sid_ltb (g_last g) (fst l) then set_last g (fst l) else g
+             | [] => g
+             end)
       else (es, g_add_pending now g c (map fst es))
   end.
 
@@ -358,11 +418,6 @@ Definition ksort {A} (l : list (bytes * A)) : list (bytes * A) :=
 (** PendingEntryList::get_range on the BTreeMap: entries with start <= id <= end *)
 Definition pel_range (l : list pending) (st en : sid) : list pending :=
   filter (fun p => sid_leb st (p_id p) && sid_leb (p_id p) en) l.
-Fixpoint filter_map {A B} (f : A -> option B) (l : list A) : list B :=
-  match l with
-  | [] => []
-  | x :: r => match f x with Some y => y :: filter_map f r | None => filter_map f r end
-  end.
 
 (** ------------------------------------------------------------------ *)
 (** * 4. Engine functions on the database                               *)
@@ -913,10 +968,12 @@ Definition h_xgroup (now : Z) (d : db) (parts : list frame) : frame * db :=
       else (r_err, d)
   end.
 
-(** the per-key loop of handle_xreadgroup; an early `return` discards the replies
-    collected so far but not the effects *)
-Fixpoint xreadgroup_loop (now : Z) (d : db) (gn c : bytes) (o : ropts) (keys ids : list frame)
-         (acc : list frame) : frame * db :=
+(** handle_xreadgroup after the repair 3384736, first pass: resolve every key (storage.get:
+    lazy expiry), parse every ID, check that the group exists; nothing is delivered.  Same
+    order of checks per key as before: key frame, ID frame, storage.get (a missing key is
+    skipped before its ID is looked at), ID text, group. *)
+Fixpoint xreadgroup_resolve (now : Z) (d : db) (gn : bytes) (keys ids : list frame)
+         (acc : list (bytes * sid)) : (frame + list (bytes * sid)) * db :=
   match keys, ids with
   | kf :: keys', idf :: ids' =>
       match kf with
@@ -929,27 +986,47 @@ Fixpoint xreadgroup_loop (now : Z) (d : db) (gn c : bytes) (o : ropts) (keys ids
                                else if beq ib (bs "0") || beq ib (bs "0-0") then Some sid_zero
                                else sid_of_bytes ib in
                   match after with
-                  | None => (r_err, d1)
+                  | None => (inl r_err, d1)
                   | Some a =>
                       match alookup gn (s_groups s) with
-                      | None => (r_nogroup, d1)
-                      | Some g =>
-                          match st_read_group now s g c a (ro_count o) (ro_noack o) with
-                          | ([], _) => xreadgroup_loop now d1 gn c o keys' ids' acc
-                          | (es, g') =>
-                              xreadgroup_loop now (put_group d1 k e s gn g') gn c o keys' ids'
-                                              (acc ++ [FArray [FBulk k; r_entries es]])
-                          end
+                      | None => (inl r_nogroup, d1)
+                      | Some _ => xreadgroup_resolve now d1 gn keys' ids' (acc ++ [(k, a)])
                       end
                   end
-              | (SWrong, d1) => (r_wrongtype, d1)
-              | (SMissing, d1) => xreadgroup_loop now d1 gn c o keys' ids' acc
+              | (SWrong, d1) => (inl r_wrongtype, d1)
+              | (SMissing, d1) => xreadgroup_resolve now d1 gn keys' ids' acc
               end
-          | _ => (r_err, d)
+          | _ => (inl r_err, d)
           end
-      | _ => (r_err, d)
+      | _ => (inl r_err, d)
       end
-  | _, _ =>
+  | _, _ => (inr acc, d)
+  end.
+
+(** second pass: deliver.  The streams resolved by the first pass share their groups with
+    the stored values (Arc), so a key listed twice sees the effect of its first read; the
+    NOGROUP arm of read_group cannot be taken any more (kept as written). *)
+Fixpoint xreadgroup_deliver (now : Z) (d : db) (gn c : bytes) (o : ropts) (reads : list (bytes * sid))
+         (acc : list frame) : frame * db :=
+  match reads with
+  | (k, a) :: rest =>
+      match raw_stream d k with
+      | SStream e s =>
+          match alookup gn (s_groups s) with
+          | None => (r_nogroup, d)
+          | Some g =>
+              match st_read_group now s g c a (ro_count o) (ro_noack o) with
+              | ([], g') =>
+                  (* Ok(_) => {}: nothing to report; an explicit ID may still have created the consumer *)
+                  xreadgroup_deliver now (if sid_eqb a sid_max then d else put_group d k e s gn g') gn c o rest acc
+              | (es, g') =>
+                  xreadgroup_deliver now (put_group d k e s gn g') gn c o rest
+                                     (acc ++ [FArray [FBulk k; r_entries es]])
+              end
+          end
+      | _ => xreadgroup_deliver now d gn c o rest acc
+      end
+  | [] =>
       match acc, ro_block o with
       | [], Some _ => (FNullArray, d)
       | _, _ => (FArray acc, d)
@@ -966,7 +1043,10 @@ Definition h_xreadgroup (now : Z) (d : db) (parts : list frame) : frame * db :=
       | ScanOk o rest =>
           if negb (len rest mod 2 =? 0) then (r_err, d) else
           let n := Z.to_nat (len rest / 2) in
-          xreadgroup_loop now d gn c o (firstn n rest) (skipn n rest) []
+          match xreadgroup_resolve now d gn (firstn n rest) (skipn n rest) [] with
+          | (inl err, d1) => (err, d1)
+          | (inr reads, d1) => xreadgroup_deliver now d1 gn c o reads []
+          end
       end
   | _, _ => (r_err, d)
   end.
@@ -1069,11 +1149,6 @@ Fixpoint scan_claim (fuel : nat) (l : list frame) (o : copts) : option copts :=
     end
   end.
 
-Definition find_entry (id : sid) (es : list sentry) : option sentry :=
-  match bsearch id es with
-  | (true, i) => znth i es
-  | (false, _) => None
-  end.
 
 Definition h_xclaim (now : Z) (d : db) (parts : list frame) : frame * db :=
   if nparts parts <? 6 then (r_err, d) else
@@ -1220,10 +1295,15 @@ Definition exec_streams (now : Z) (d : db) (name : bytes) (parts : list frame) (
 
 (** ---- WATCH (C08): the keys on which the engine calls mark_modified ----
     xadd / xadd_with_id mark on success, xtrim / xdel when something was removed.  The
-    consumer-group commands never mark for what they do to the group (pending entries,
-    cursor, consumers live behind a shared Arc outside the engine: finding
-    stream-group-writes-unmarked); they mark only through storage.get removing an expired
-    key and through set_value of XGROUP CREATE ... MKSTREAM. *)
+    consumer-group commands mark through storage.get removing an expired key, through
+    set_value of XGROUP CREATE ... MKSTREAM, and - after ed8ba04 - through
+    StorageEngine::mark_key_modified when the handler changed the group state (pending
+    entries, cursor, consumers live behind a shared Arc outside the engine): XGROUP CREATE
+    and SETID that answer OK, DESTROY / CREATECONSUMER that answer 1, DELCONSUMER and XCLAIM
+    whenever the group exists, XACK that acknowledged something, XREADGROUP once per stream
+    it reports entries from.  Not marked: an explicit-ID XREADGROUP that reports nothing
+    (it still registers the reader, and bumps the delivery counters of pending entries that
+    were deleted from the stream): finding group-reread-unmarked. *)
 Definition gone_keys (d d' : db) : list bytes :=
   filter (fun k => negb (amem k (d_data d'))) (map fst (d_data d)).
 Definition fresh_keys (d d' : db) : list bytes :=
@@ -1236,6 +1316,43 @@ Definition reborn_keys (d d' : db) : list bytes :=
               | Some _, Some e' => match e_exp e' with None => [fst ke; fst ke] | Some _ => [] end
               | _, _ => []
               end) (d_data d).
+Definition has_group (d : db) (k gn : bytes) : bool :=
+  match get_entry d k with
+  | Some e => match e_val e with VStream s => amem gn (s_groups s) | _ => false end
+  | None => false
+  end.
+(** the streams a successful XREADGROUP reports entries from *)
+Definition reply_keys (reply : frame) : list bytes :=
+  match reply with
+  | FArray l => flat_map (fun f => match f with FArray (FBulk k :: _) => [k] | _ => [] end) l
+  | _ => []
+  end.
+(** storage.mark_key_modified call sites of commands/consumer_groups.rs (ed8ba04) *)
+Definition marks_group_cmd (d' : db) (name : bytes) (parts : list frame) (reply : frame) : list bytes :=
+  if beq name (bs "XGROUP") then
+    match nth_arg parts 1, nth_arg parts 2, nth_arg parts 3 with
+    | Some sub, Some k, Some gn =>
+        let u := upper sub in
+        if beq u (bs "CREATE") || beq u (bs "SETID") then (match reply with FSimple _ => [k] | _ => [] end)
+        else if beq u (bs "DESTROY") || beq u (bs "CREATECONSUMER") then
+          (match reply with FInt n => if n =? 1 then [k] else [] | _ => [] end)
+        else if beq u (bs "DELCONSUMER") then
+          (match reply with FInt _ => if has_group d' k gn then [k] else [] | _ => [] end)
+        else []
+    | _, _, _ => []
+    end
+  else if beq name (bs "XREADGROUP") then reply_keys reply
+  else if beq name (bs "XACK") then
+    match nth_arg parts 1, reply with
+    | Some k, FInt n => if 0 <? n then [k] else []
+    | _, _ => []
+    end
+  else if beq name (bs "XCLAIM") then
+    match nth_arg parts 1, nth_arg parts 2 with
+    | Some k, Some gn => if negb (is_error reply) && has_group d' k gn then [k] else []
+    | _, _ => []
+    end
+  else [].
 Definition marks_streams (d d' : db) (name : bytes) (parts : list frame) (reply : frame) : list bytes :=
   let k1 := match nth_arg parts 1 with Some k => [k] | None => [] end in
   if beq name (bs "XADD") then (match reply with FBulk _ => k1 | _ => [] end)
@@ -1243,5 +1360,5 @@ Definition marks_streams (d d' : db) (name : bytes) (parts : list frame) (reply 
     (match reply with FInt n => if 0 <? n then k1 else [] | _ => [] end)
   else if beq name (bs "XGROUP") || beq name (bs "XREADGROUP") || beq name (bs "XACK") || beq name (bs "XCLAIM")
           || beq name (bs "XPENDING") || beq name (bs "XINFO") then
-    gone_keys d d' ++ reborn_keys d d' ++ fresh_keys d d'
+    gone_keys d d' ++ reborn_keys d d' ++ fresh_keys d d' ++ marks_group_cmd d' name parts reply
   else [].
